@@ -624,3 +624,24 @@ Fixpoint lvn_stmts (ss : list stmt) (vc : lvc) (bc : lbc) : list stmt * lvc * lb
 Definition lvn (f : func) : func :=
   let '(body, vc, _) := lvn_stmts (f_body f) [] [] in
   mkfunc (f_params f) body (lvn_expr vc (f_ret f)).
+
+(* ======================================================================== the per-function pipeline *)
+(* lib.rs optimize_function_for_one_round / optimize_function_for_rounds, restricted to the modelled passes
+   (scalar replacement, the loop optimisations and common subexpression elimination are switched off by the
+   OptimizationConfiguration; local value numbering is a configuration flag):
+     one round  = ccp; [lvn]; dce          rounds = round; round; ccp; dce; ccp
+   The flags of the ccp applications are or-ed. *)
+Definition then_ccp (r : option (func * fl)) : option (func * fl) :=
+  match r with
+  | Some (f, fl1) => match ccp f with Some (f', fl2) => Some (f', orf fl1 fl2) | None => None end
+  | None => None
+  end.
+Definition then_pure (p : func -> func) (r : option (func * fl)) : option (func * fl) :=
+  match r with Some (f, fl1) => Some (p f, fl1) | None => None end.
+Definition one_round (lvn_on : bool) (r : option (func * fl)) : option (func * fl) :=
+  then_pure dce (then_pure (if lvn_on then lvn else fun f => f) (then_ccp r)).
+Definition pipeline (lvn_on : bool) (f : func) : option (func * fl) :=
+  then_ccp (then_pure dce (then_ccp (one_round lvn_on (one_round lvn_on (Some (f, fl0)))))).
+(* decidable: none of the five applications of ccp met dead final operands (see dead_final_operands) *)
+Definition pipeline_no_dead_final_operands (lvn_on : bool) (f : func) : Prop :=
+  match pipeline lvn_on f with Some (_, fl) => fst fl = false | None => True end.
